@@ -185,6 +185,11 @@ def make_cov(rng, n, kind, scale):
         A = rng.normal(size=(3 * n + 5, n))
         A[:, 0] = 1.5
         S = np.cov(A.T, bias=True)
+    elif kind == "roundoff_asymmetric":         # symmetric only up to round-off (C19 only: outside C02's quantifier)
+        A = rng.normal(size=(3 * n + 5, n))
+        S = (A.T @ A) / A.shape[0]
+        S = S + 1e-16 * np.triu(rng.normal(size=(n, n)), 1) * np.abs(S).max()
+        return np.atleast_2d(S) * scale
     elif kind == "uncond":                      # eigenvalues in [0.25, 4]
         Q, _ = np.linalg.qr(rng.normal(size=(n, n)))
         S = (Q * rng.uniform(0.25, 4.0, size=n)) @ Q.T
@@ -282,20 +287,25 @@ def jobs_for(tier, rng, want_scales):
     return jobs
 
 
-def solver_sweep(rep, tier, enforced):
+def solver_sweep(rep, tier, enforced, extra_kinds=()):
     """Run the solver driver and validate every call against TraceAdmm with the given clauses."""
     from . import corpus
     rng = random.Random(common.seed() * 40692 + 2)
 
     def build():
         jobs = jobs_for(tier, rng, True)
+        for kind in extra_kinds:
+            for i in range(6 if tier == "quick" else 60):
+                N, W = rng.choice([(2, 2), (3, 2), (2, 3), (1, 3)])
+                jobs.append((N, W, kind, 1.0, 0.11, ["scalar", "matrix_const"][i % 2], 1.0, False, 50,
+                             rng.randrange(1 << 30)))
         return common.pmap_chunked(solve, jobs, chunk=2)
-    traces = corpus.cached(f"solver_{tier}_{common.seed()}", build)
+    traces = corpus.cached(f"solver_{tier}_{common.seed()}_{'-'.join(extra_kinds)}", build)
     ok = [t for t in traces if not t["error"]]
     for t in traces:
         if t["error"]:
             rep.regime("solver_raised")
-            if "C03" in enforced or "C02" in enforced:
+            if "C03" in enforced or "C02" in enforced or "C19" in enforced:
                 rep.violation("solver_raised_on_valid_input", {"job": t["job"], "error": t["error"]}, t["error"][:120])
     acc, fail, res = tracecheck.validate("TraceAdmm", ok, enforced, spec="TraceSpec",
                                          extra_constants={"MaxIt": 1000, "RhoVals": "{}", "HasCallback": "FALSE"})
